@@ -192,6 +192,9 @@ type State struct {
 	// regions instead of heap versions and records which regions were read: this
 	// is how the body of a recursive spec function is abstracted over the heap.
 	Track *regionTracker
+	// Epoch > 0: a whole-heap havoc (a callee that may write anything) happened on the way
+	// here; a region first mentioned afterwards is unknown, not its entry version.
+	Epoch int
 }
 
 type regionTracker struct {
@@ -208,7 +211,7 @@ func (t *regionTracker) formal(name string) Term {
 }
 
 func (st *State) clone() *State {
-	n := &State{Heap: make(map[string]Term, len(st.Heap)), NA: st.NA, Gh: make(map[string]Term, len(st.Gh))}
+	n := &State{Heap: make(map[string]Term, len(st.Heap)), NA: st.NA, Gh: make(map[string]Term, len(st.Gh)), Epoch: st.Epoch, Track: st.Track}
 	for k, v := range st.Heap {
 		n.Heap[k] = v
 	}
